@@ -26,4 +26,19 @@ void QmailTree::build(Kernel *k, const Json &conf) {
   k->put_fifo(q + "/lock/trigger", 0622, us_, gid_qmail);
   k->put_file(home + "/control/me", "sim.example\n");
 }
+void QmailTree::restyle_control(Kernel *k, const std::string &path, int style) {
+  Inode *f = k->lookup(path); if (!f || f->type != T_REG || f->data.empty() || style == 0) return;
+  std::string d = f->data;
+  if (d.find('\0') != std::string::npos) return;   // not a line list
+  // single-value files (first line counts) only get trailing blanks or lose their newline; line lists get the full treatment
+  { std::string base = path.substr(path.rfind('/') + 1); static const char *lists[] = {"rcpthosts", "morercpthosts", "badmailfrom", "locals", "virtualdomains", "percenthack", "smtproutes"}; bool is_list = false; for (auto *l : lists) if (base == l) is_list = true;
+    if (!is_list && style == 2) { if (d.back() == '\n') d.pop_back(); d += " \t\n"; f->data = d; f->synced = d; f->unsynced.clear(); return; } }
+  if (style == 2) { std::string o = "# a comment line\n\n"; size_t i = 0; int n = 0; while (i < d.size()) { size_t e = d.find('\n', i); if (e == std::string::npos) e = d.size(); o += d.substr(i, e - i) + ((n++ % 2) ? " \t" : "  ") + "\n"; i = e + 1; } o += "\n"; d = o; }
+  if (style == 1 && d.back() == '\n') d.pop_back();
+  f->data = d; f->synced = d; f->unsynced.clear();
+}
+void QmailTree::restyle_all_controls(Kernel *k, int style) {
+  if (!style) return;
+  for (auto &nm : k->listdir(home + "/control")) { if (nm == "me" || nm.find(".cdb") != std::string::npos) continue; restyle_control(k, home + "/control/" + nm, style); }
+}
 }  // namespace sim
